@@ -403,15 +403,10 @@ void sqf::fileio::impl_default::add_mapping(std::string_view viewPhysical, std::
 std::string sqf::fileio::impl_default::read_file(sqf::runtime::fileio::pathinfo info) const
 {
     std::filesystem::path physical = info.physical;
-    if (physical.extension() == ".pbo")
+    // Archives that have been mounted are read from; any other file, whatever its name, is read from disk
+    auto res = physical.extension() == ".pbo" ? m_pbos.find(physical.lexically_normal().string()) : m_pbos.end();
+    if (res != m_pbos.end())
     {
-        auto res = m_pbos.find(physical.lexically_normal().string());
-        if (res == m_pbos.end())
-        {
-            log(logmessage::fileio::PBOFileNotFound(physical.lexically_normal().string()));
-            return {};
-        }
-        else
         {
             auto prefix_optional = res->second.attribute("prefix");
             if (!prefix_optional.has_value())
